@@ -92,7 +92,7 @@ theorem enforce_depends_on_core (e e' : Enforcer) (h : sameCore e e') (call : St
     (tbl : String → Option Expr) (req : List Val) :
     e'.enforce call tbl req = e.enforce call tbl req := by
   obtain ⟨h1, h2, h3, h4, h5, _, _, _⟩ := h
-  unfold Enforcer.enforce Enforcer.evalCfg Enforcer.matchFn Enforcer.env
+  unfold Enforcer.enforce Enforcer.evalCfg Enforcer.evalCfgKeys Enforcer.matchFn Enforcer.env
   rw [h1, h2, h3, h4, h5]
 
 /-- **A failing load keeps the previous policy**: whatever the adapter delivered before it
